@@ -95,7 +95,7 @@ func checkC11(c *Ctx) {
 			for rep := 0; rep < reps; rep++ {
 				idx := 0
 				e := instantiateAuto(s, forms, r.Intn(64), &idx, autos, r)
-				kind := (si + ui + rep) % 4
+				kind := (si + ui + rep) % 6
 				p := condProgram(fmt.Sprintf("A%d_%d_%d", si, ui, rep), e, kind)
 				src := RenderProg(p, Style{R: r, Parens: (si+ui)%2 == 0, Layout: 0})
 				nprog++
@@ -131,6 +131,55 @@ func checkC11(c *Ctx) {
 		nprog++
 		compileBoth(c, fmt.Sprintf("asw%d", i), p, src, base, &cases, &rejected)
 		progs = append(progs, struct{ src string }{src})
+	}
+	// the GenCtl programs with switches and conditions turned into AutoVar ones (nested switches,
+	// AutoVar conditions inside loops and case bodies, ...)
+	ctl, ok := cachedGenModule(c, "GenCtl", map[string]int{"Level": 2}, "one.ndjson", "nest.ndjson")
+	if !ok {
+		return
+	}
+	nestEvery := 12
+	if !c.Quick() {
+		nestEvery = 1
+	}
+	autoProgs := append(ctlPrograms(c, ctl["one.ndjson"], "ao", 2, c.Seed), ctlPrograms(c, ctl["nest.ndjson"], "an", nestEvery, c.Seed)...)
+	for i, p := range autoProgs {
+		k := 0
+		changed := false
+		walkStmts(p.Scripts[0].Body, func(s *Stmt) {
+			autoExpr := func(e *Expr) {
+				walkExpr(e, func(x *Expr) {
+					if x.K == "leaf" && x.Typ == "flag" && r.Chance(1, 2) {
+						k++
+						*x = *autoLeaf(i+k, x.Form == "not")
+						changed = true
+					}
+				})
+			}
+			switch s.K {
+			case "if":
+				for j := range s.Arms {
+					autoExpr(s.Arms[j].Cond)
+				}
+			case "while", "dowhile":
+				if s.Cond != nil {
+					autoExpr(s.Cond)
+				}
+			case "switch":
+				if r.Chance(2, 3) {
+					k++
+					al := autoLeaf(i+k, false)
+					s.Pre, s.V = al.Toks, al.Opnd
+					changed = true
+				}
+			}
+		})
+		if !changed {
+			continue
+		}
+		src := RenderProg(p, Style{R: r, Layout: 0})
+		nprog++
+		compileBoth(c, p.Scripts[0].Name, p, src, base, &cases, &rejected)
 	}
 	st := RunRefine(c, cases, 6000, "AutoVar command not run exactly once, in order, before comparing its var", nil)
 
